@@ -32,9 +32,10 @@ example : StdWF ((render [.wrapper ⟨false, false, [.sec ⟨false, true, false,
 /-! ### with the content components filled in -/
 open Gomjml.LayoutLeaves Gomjml.Leaves in
 /-- **C02 for documents with real content components**: any layout tree with, in every content slot, any of mj-text, mj-button,
-    mj-image, mj-divider, mj-spacer, mj-table, mj-social (horizontal / vertical, any number of elements with or without icon,
-    link, text), mj-navbar (with or without hamburger, any number of links), mj-accordion (any number of elements, each with or
-    without title / text, icon left or right), mj-carousel (any number ≥ 1 of images, with or without links and thumbnails):
+    mj-image, mj-divider, mj-spacer, mj-table, mj-social (horizontal / vertical, any number of elements with or without link and
+    text, raw content between them), mj-navbar (with or without hamburger, any number of links and raw content in any order),
+    mj-accordion (any number of elements and raw content, each element with any sequence of titles, texts and raw content, icon
+    left or right), mj-carousel (any number ≥ 1 of images, with or without links and thumbnails):
     what standard clients see is strictly nested, conditional blocks (Outlook-only AND not-Outlook ones) are delimited and never
     nested, no Outlook-only markup outside a conditional.  No side condition. -/
 theorem C02_components (d : Doc) : StdWF d.render := (doc_spec d).1
@@ -45,13 +46,13 @@ open Gomjml.Leaves in
 theorem C02_component_inert (l : LeafM) : Gomjml.Expand.Inert l.toks := leaf_inert l
 
 open Gomjml.LayoutLeaves Gomjml.Leaves in
-/-- non-vacuity: a section with a column holding a social bar (two elements, one without icon), a hamburger navbar with two
-    links and a carousel of two images, next to a hero with an accordion — complete (a component for every slot) and rendered -/
+/-- non-vacuity: a section with a column holding a social bar (two elements with raw content between them), a hamburger navbar that
+    starts with raw content, and a carousel of two images, next to a hero with an accordion (two titles in one element, raw content) — complete (a component for every slot) and rendered -/
 def dEx : Doc :=
   ⟨[.section ⟨false, false, false, false, false, false, [.col ⟨false, [.slot, .text, .slot, .slot]⟩]⟩, .hero [.slot]],
-   [.social false [⟨true, true, true⟩, ⟨false, false, true⟩], .keep, .navbar true [true, false], .carousel true false [true],
-    .accordion [⟨some true, some true, false⟩, ⟨none, some false, true⟩]]⟩
+   [.social false [.el ⟨true, true⟩, .raw false, .el ⟨false, true⟩], .keep, .navbar true [.raw false, .link true, .link false], .carousel true false [true],
+    .accordion [.el ⟨false, [.title true, .text true, .title true]⟩, .raw false, .el ⟨true, [.text false, .raw false]⟩]]⟩
 example : dEx.Complete := by unfold Gomjml.LayoutLeaves.Doc.Complete; decide
-example : dEx.render.length = 301 ∧ Gomjml.Leaves.cntT dEx.render = 5 := by decide +kernel
+example : dEx.render.length = 354 ∧ Gomjml.Leaves.cntT dEx.render = 11 := by decide +kernel
 
 end Gomjml.Props.C02
